@@ -406,7 +406,9 @@ def run_check(modname, tier, seed):
 
     # 3. generated + enumerated cases over the shards
     results = async_res.get()
-    pool.close()
+    # terminate (not close/join): on a broken tree a case may leak a non-daemon simulator thread, and a worker
+    # process that exits normally would wait for it for ever
+    pool.terminate()
     pool.join()
     for r in results:
         st.merge(r)
